@@ -36,9 +36,9 @@ func C20() *runner.Property {
 			"set: real MDB_DUPSORT DBI contents read in LMDB order -> the real set encoder: an error, or strictly increasing unique shadow keys that decode to the original list; " +
 			"cycle: real Syncer with dupsort_hack on a dupsort DBI: SendOnce/LoadOnce mirror cycles over change histories (adds/removes of pairs incl. colliding long values, with larger keys present) leave the application's pair multiset exactly as the application wrote it plus merged remote changes, or fail with an error and an unchanged LMDB; uploaded blobs state transform=dupsort_hack_v1 and the original DBI flags; " +
 			"refuse: native-mode and hack-less receivers, and inconsistent transform/flag combinations, refuse such blobs with an unchanged LMDB. Non-trivial = the pair/set contains a zero byte next to the separator region or a value longer than the room left.",
-		Assumptions:  []string{"values of one key sharing their first ~500 bytes are documented to be unsupported: the oracle demands refusal, not support"},
-		BatchSize:    4,
-		CaseTimeout:  180e9,
+		Assumptions: []string{"values of one key sharing their first ~500 bytes are documented to be unsupported: the oracle demands refusal, not support"},
+		BatchSize:   4,
+		CaseTimeout: 180e9,
 		Cases: func(tier string, seed int64) []runner.Case {
 			r := rng.New(uint64(seed) ^ 0xC20)
 			k := 1
